@@ -27,7 +27,7 @@ FR_DERIVES = ['to_frame', 'to_frame_go', 'to_frame_he', 'ctor_static', 'ctor_go'
               'index_ref', 'assign', 'roll', 'shift', 'concat_self', 'to_frame_go_then_go', 'columns_copy',
               'iter_array_hold', 'relabel_index', 'fillna', 'round', 'level_add_drop_index', 'level_add_columns', 'level_add_drop_columns',
               'neg', 'abs', 'clip', 'cumsum', 'dropna', 'isin', 'rehierarch_index', 'unset_index', 'bloc_assign', 'level_add_index', 'level_drop_index',
-              'level_drop_index']
+              'level_drop_index', 'drop_row_loc', 'drop_rows_loc_list', 'drop_rows_iloc', 'drop_rows_iloc_none', 'drop_bool_series']
 
 
 def index_model_from(ix):
@@ -67,7 +67,7 @@ class FrameOps:
         nrows = ch.weighted([(0, 1), (1, 2), (2, 4), (3, 4), (4, 2)])
         ncols = ch.weighted([(0, 1.5), (1, 3), (2, 4), (3, 3), (4, 1)])
         ikind = ch.weighted([('str', 5), ('int', 2), ('date', 1), ('hier', 1.5), ('auto', 1)])
-        ckind = ch.weighted([('str', 6), ('int', 1.5), ('hier', 2.5), ('auto', 2)])
+        ckind = ch.weighted([('str', 6), ('int', 1.5), ('hier', 2.5), ('auto', 2), ('date', 1.5)])
         if ikind == 'str':
             index = ROW_STR[:nrows] if ch.chance(0.6) else ch.sample(ROW_STR, nrows)
         elif ikind == 'int':
@@ -84,12 +84,16 @@ class FrameOps:
             columns = ch.sample(range(5), ncols)
         elif ckind == 'hier':
             columns = [[['a', 'b', 'c'][i // 2], i % 2 + 1] for i in range(ncols)]
+        elif ckind == 'date':
+            columns = ['2020-01-%02d' % (i + 1) for i in range(ncols)]  # same pool as grow_index.DATES['D'] starts with
         else:
             columns = None
         homog = ch.chance(0.3)
         k0 = ch.choice(['int', 'float', 'str', 'bool'])
         data = [self._gen_cells(ch, nrows, k0 if homog else None) for _ in range(ncols)]
         route = ch.choice(['from_dict', 'from_items', 'from_records', 'array2d', 'via_static'])
+        if ckind == 'date':
+            route = 'from_items'
         if ckind == 'auto':
             route = 'from_records'
         if ckind == 'hier' and route == 'from_dict':
@@ -122,6 +126,12 @@ class FrameOps:
     def _bad_key(self, ch, e):
         m = e.model.columns
         kind = ch.weighted([('dup', 4 if m.raw else 0), ('unhashable', 2), ('reentry', 3 if (m.hier and m.raw) else 0), ('odd', 1.5 if m.unit is None else 0)])
+        if m.unit is not None and ch.chance(0.5):
+            # date columns: a label that cannot be a date, or a held date in another spelling (string, finer unit)
+            if not m.raw or ch.chance(0.3):
+                return 'not-a-date'
+            x = ch.choice(m.raw)
+            return str(x) if (m.unit != 'D' or ch.chance(0.5)) else {'d': str(x) + 'T00:00'}
         if kind == 'odd':
             if m.hier:
                 return 'AzQx'[:m.depth]  # a plain string as long as the depth is not a tuple of labels
@@ -343,6 +353,8 @@ class FrameOps:
             cc = None
             if ckind == 'hier':
                 cc = (sf.IndexHierarchyGO if go else sf.IndexHierarchy).from_labels
+            if ckind == 'date':
+                cc = sf.IndexDateGO if go else sf.IndexDate
             return cls.from_items(zip(labels, data), index=idx, name=name, columns_constructor=cc)
         st, r = call(build)
         if st == 'raise':
@@ -857,6 +869,17 @@ class FrameOps:
             if how == 'level_add_drop_index':
                 # a level is added to, then dropped from, the index only: the columns pass through untouched
                 return obj.relabel_level_add(index='outer').relabel_level_drop(index=1)
+            if how == 'drop_row_loc':
+                # only rows are dropped: the (grow-only) columns pass through and must still not be shared
+                return obj.drop.loc[obj.index.values[0] if obj.index.depth == 1 else tuple(obj.index.values[0])]
+            if how == 'drop_rows_loc_list':
+                return obj.drop.loc[[x if obj.index.depth == 1 else tuple(x) for x in obj.index.values[:2].tolist()]]
+            if how == 'drop_rows_iloc':
+                return obj.drop.iloc[[0]]
+            if how == 'drop_rows_iloc_none':
+                return obj.drop.iloc[[0], None]
+            if how == 'drop_bool_series':
+                return obj.drop.loc[sf.Series([i == 0 for i in range(len(obj.index))], index=obj.index)]
             if how == 'level_add_index':
                 return obj.relabel_level_add(index='outer')
             if how == 'level_drop_index':
